@@ -5,8 +5,8 @@ import (
 	"strings"
 )
 
-// panicMatches reports whether a rendered report carries the panic value of the given kind.
-func panicMatches(kind string, r *Report) bool {
+// PanicMatches reports whether a rendered report carries the panic value of the given kind.
+func PanicMatches(kind string, r *Report) bool {
 	switch kind {
 	case "nil":
 		return r.PanicType == "<nil>" || r.PanicType == "*runtime.PanicNilError"
@@ -32,7 +32,7 @@ func goodPanicReport(kind string, r *Report) string {
 		return "no panic error"
 	case !r.IsPanic:
 		return "error does not identify itself as a panic (severity " + r.Severity + ")"
-	case !panicMatches(kind, r):
+	case !PanicMatches(kind, r):
 		return fmt.Sprintf("panic value is %s(%s), thrown kind %q", r.PanicType, r.PanicValue, kind)
 	case !r.HasStack:
 		return "no stack trace"
